@@ -3,7 +3,7 @@
 P=$1; shift
 S=$(mktemp -d /tmp/vsr-XXXXXX); rmdir $S
 git -C /repo worktree add -q --detach $S HEAD || exit 2
-git -C $S apply "$P" || { git -C /repo worktree remove --force $S; exit 2; }
+git -C $S apply "$(realpath "$P")" || { git -C /repo worktree remove --force $S; exit 2; }
 for p in "$@"; do
   /verif/bin/prunnerlint -property $p -repo $S -verif /verif -config linux/amd64 -obs-out /tmp/vsr-$$.json >/dev/null 2>&1
   python3 - /tmp/vsr-$$.json $p <<'PY'
